@@ -38,6 +38,7 @@ func runC02(c *Ctx, r *Report) {
 	c02Flags(c, r)
 	c02PosixLongest(c, r, "C02-f/posix-longest")
 	c02MatcherVerbatim(c, r, "C02-i/matcher-verbatim")
+	c16ContextReadOnly(c, r, "C02-e/context-read-only")
 }
 
 // ---------------------------------------------------------------- (a) line numbers
